@@ -53,6 +53,12 @@ var points = []pt{
 	{"pfrac.seal.before_release", ""}, {"active.release.meta_removed", ""},
 }
 
+// the lowered-limit phase is the only way to reach the deletion of an active fraction
+var shrinkPoints = append(append([]pt{
+	{"active.suicide.begin", ""}, {"active.suicide.meta_removed", ""}, {"active.suicide.docs_removed", ""},
+	{"active.suicide.begin", ""}, {"active.suicide.meta_removed", ""}, {"active.suicide.docs_removed", ""},
+}, points[2:8]...), points[11:14]...)
+
 var shapes = []string{`[]`, `{}`, `null`, `{"a":1}`, `{"seq-db-X":5}`, `"str"`, `{"seq-db-X":{"from":"x"}}`, ``, `{`}
 
 // noise: deterministic, poorly compressible padding (fraction sizes are measured after
@@ -109,9 +115,14 @@ func genCase(t *rapid.T) Case {
 			c.Ops = append(c.Ops, Op{Kind: "maintain"})
 		case k < 12:
 			c.Ops = append(c.Ops, Op{Kind: "seal"})
-		case k < 16:
+		case k < 15:
 			p := rapid.SampledFrom(points).Draw(t, "point")
 			c.Ops = append(c.Ops, Op{Kind: "crash", Docs: genDocs(t, &seq), Point: p.name, Arg: p.arg, N: rapid.IntRange(1, 2).Draw(t, "nth")})
+		case k < 16:
+			// the operator lowers the total size limit below what is stored: the next maintenance
+			// pass deletes everything, including the fraction that is still active
+			p := rapid.SampledFrom(shrinkPoints).Draw(t, "shrinkpoint")
+			c.Ops = append(c.Ops, Op{Kind: "shrink", Docs: genDocs(t, &seq), Point: p.name, Arg: p.arg, N: rapid.IntRange(1, 2).Draw(t, "nth")})
 		case k < 17:
 			c.Ops = append(c.Ops, Op{Kind: "kill"})
 		case k < 18:
@@ -243,15 +254,49 @@ func runCase(c Case) (evid.Result, error) {
 		}
 		return nil
 	}
-	up := func(step string) error {
+	// after a start every deletion that had begun is finished: no .del file is left, and no
+	// document file of a fraction that is gone
+	orphans := func(step string) error {
+		ents, _ := os.ReadDir(dir)
+		for _, e := range ents {
+			name := e.Name()
+			if !strings.HasPrefix(name, "seq-db-") {
+				continue
+			}
+			if strings.HasSuffix(name, ".del") {
+				return evid.Failf("deletion-not-finished", "%s: %s is still on disk after the start", step, name)
+			}
+			base := name[:strings.IndexByte(name, '.')]
+			// only files that hold documents matter: from a lone .meta or .index nothing can be
+			// served again (the loader skips such a fraction), it is an unreferenced file, not a
+			// fraction that is "not completely gone"
+			// only files that hold documents matter: from a lone .meta, .index or temp file
+			// nothing can be served again (the loader skips such a fraction).  A stricter rule
+			// ("no file at all of a gone fraction") was tried and is NOT what seq-db does: meta
+			// files kept on request, the stale .index of a re-activated fraction and ._index /
+			// ._sdocs temp files of interrupted seals all outlive their fraction by design.
+			if !strings.HasSuffix(name, ".docs") && !strings.HasSuffix(name, ".sdocs") {
+				continue
+			}
+			if w.gone[base] {
+				return evid.Failf("deleted-fraction-files-left", "%s: fraction %s is gone but %s is still on disk", step, base, name)
+			}
+		}
+		return nil
+	}
+	upWith := func(step string, o harness.StoreOpts) error {
 		noteDelFiles()
 		var err error
-		p, err = harness.OpenProc(dir, c.Opts, c.Fsync)
+		p, err = harness.OpenProc(dir, o, c.Fsync)
 		if err != nil {
 			return evid.Failf("no-start", "%s: %v", step, err)
 		}
-		return verify(step)
+		if err := verify(step); err != nil {
+			return err
+		}
+		return orphans(step)
 	}
+	up := func(step string) error { return upWith(step, c.Opts) }
 	activeName := func() (string, error) {
 		r, err := p.Do(harness.PCmd{Op: "fracs"})
 		if err != nil {
@@ -346,6 +391,41 @@ func runCase(c Case) (evid.Result, error) {
 			res.Labels = append(res.Labels, "crash@"+op.Point+op.Arg)
 			if fileKinds(p.Crash.Files) != fileKinds(before.Files) {
 				oddFileSet = true
+			}
+		case "shrink":
+			if err := bulk(op.Docs); err != nil {
+				return res, err
+			}
+			if err := p.StopGraceful(); err != nil {
+				return res, evid.Failf("stop-failed", "%s: %v", step, err)
+			}
+			tiny := c.Opts
+			tiny.TotalSize = 1
+			if err := upWith(step+" (total size lowered)", tiny); err != nil {
+				return res, err
+			}
+			before, err := p.Do(harness.PCmd{Op: "files", Dir: dir})
+			if err != nil {
+				return res, evid.Failf("died-idle", "exit %d", p.Exit)
+			}
+			if _, err := p.Do(harness.PCmd{Op: "arm", Point: op.Point, Arg: op.Arg, N: max(1, op.N)}); err != nil {
+				return res, err
+			}
+			_, err = p.Do(harness.PCmd{Op: "maintain"})
+			crashes++ // from here on retention is no longer "crash-free"
+			if err != nil {
+				if p.Crash == nil {
+					return res, evid.Failf("died-in-maintenance", "%s: died without reaching the armed point: exit %d %s", step, p.Exit, p.StderrTail())
+				}
+				res.Labels = append(res.Labels, "shrink-crash@"+op.Point+op.Arg)
+				if fileKinds(p.Crash.Files) != fileKinds(before.Files) {
+					oddFileSet = true
+				}
+			} else {
+				// the active fraction may have been deleted: this process cannot be used (or
+				// stopped gracefully) any more, as after any abrupt end
+				p.Kill()
+				res.Labels = append(res.Labels, "shrink-completed")
 			}
 		case "kill":
 			p.Kill()
